@@ -67,8 +67,8 @@ var c19Toks = []string{"''", `""`, "a", "b", "A", "x y", "'x y'", "--", "-", "--
 	strings.Repeat("A", 300), strings.Repeat("9", 40)}
 
 var c19Methods = []string{"[", "[[", "![", "@[", "addheading", "alter", "alter -m", "alter -s", "append", "prepend", "base64", "!base64", "cast", "format", "count",
-	"count --unique", "count --total", "count --sum", "count --bogus", "escape", "!escape", "eschtml", "!eschtml", "escurl", "!escurl", "esccli", "foreach", "formap", "get-type", "is-null", "jsplit",
-	"left", "right", "prefix", "suffix", "list.case", "map", "match", "!match", "regexp", "!regexp", "rx", "!rx", "mjoin", "msort", "mtac", "pretty", "round", "select",
+	"count --unique", "count --total", "count --sum", "count --bogus", "escape", "!escape", "eschtml", "!eschtml", "escurl", "!escurl", "esccli", "foreach", "foreach --step", "foreach --parallel", "foreach --jmap", "formap", "get-type", "is-null", "jsplit",
+	"left", "right", "prefix", "suffix", "list.case", "map", "match", "!match", "regexp", "!regexp", "rx", "!rx", "mjoin", "msort", "mtac", "pretty", "round", "round --down", "round --up", "select",
 	"struct-keys", "tabulate", "tabulate --map", "tabulate --joiner", "tread", "set", "let", "global", "2darray", "gz", "!gz", "bz2", "!bz2", "datetime", "datetime --in", "datetime --out", "printf",
 	"debug", "null", "pt", "summary", "murex-parser", "ta", "a", "ja", "switch", "if", "!if", "and", "or", "!and", "!or", "catch", "!catch", "exitnum", "time", "type", "which", "!", "~>", ">>x", "|> x", "g", "!g", "f", "rx", "runtime", "args"}
 
@@ -106,7 +106,7 @@ func c19Index(r *rand.Rand) string {
 	case 4:
 		return "[" + c19Pick(r, c19Toks) + "]"
 	default:
-		return "[.." + c19Pick(r, c19Nums) + "]"
+		return "[ *" + c19Pick(r, c19Nums) + " *" + c19Pick(r, c19Nums) + " ]"
 	}
 }
 
@@ -128,6 +128,19 @@ var c19Corpus = []c19Case{
 	{"corpus", `a [1..3] -> [-1..-9]`},
 	{"corpus", `tout json {"a":[1,2,3]} -> set c19u; $c19u.a.9 = "x"; out $c19u`},
 	{"corpus", `c19v = %{a:{q:1}}; $c19v.a.b.c = "x"; out $c19v`},
+	{"corpus", `out a -> alter "" 100`},
+	{"corpus", `tout json {"a":1} -> alter -s "" 5`},
+	{"corpus", `a [1..3] -> foreach --step -1 i { out $i }`},
+	{"corpus", `round --down 5 1e-1`},
+	{"corpus", `round --up 5 1e-1`},
+	{"corpus", `tout generic "a b\nc d\ne f\n" -> [ *3 *0 ]`},
+	{"corpus", `tout generic "a b\nc d\ne f\n" -> ![ *0 ]`},
+	{"corpus", `history`},
+	{"corpus", `out -> regexp 007`},
+	{"corpus", `murex-docs 100`},
+	{"corpus", `runmode foo bar`},
+	{"corpus", `function c19rm { runmode: bad }; c19rm`},
+	{"corpus", `try { runmode try; out x }`},
 	{"corpus", `out (1/0)`},
 	{"corpus", `out ${ out ${ out ${ err x } } }`},
 	{"corpus", `function c19i (a: int, b: bogus [`},
